@@ -56,7 +56,55 @@ def mock_imports(rep, text, prefix='crate::mockhost'):
     return out
 
 
-def generate(rep, name, extra_args=(), mock=False, mock_prefix='crate::mockhost'):
+def hoist_subtasks(rep, text):
+    """Rule R2 (only for the async-import callback obligations of C08): the generator defines, INSIDE each async import function,
+        #[derive(Copy, Clone)] struct ParamsLower(..); unsafe impl Send ..; use ..Subtask as _Subtask; struct _MySubtask<'a> {..}
+        unsafe impl<'a> _Subtask for _MySubtask<'a> { abi_layout, results_offset, call_import, params_dealloc_lists,
+                                                       params_dealloc_lists_and_own, params_lower, results_lift }
+    Function-local items cannot be named by a harness.  The rule COPIES that block of items, verbatim, into a sibling module
+    `pub mod verif_subtask_<fn> { use super::*; .. }` appended right after the function, with `pub` added to the two struct
+    declarations and their fields so the harness can construct and read them.  The function itself is left as generated; nothing
+    inside the copied `impl` is changed."""
+    import re
+    out, pos, names = [], 0, []
+    for m in re.finditer(r'pub async fn (\w+)\(', text):
+        name = m.group(1)
+        i = text.find('#[derive(Copy, Clone)]', m.end())
+        nxt = re.search(r'pub (async )?fn \w+\(', text[m.end():])
+        limit = m.end() + nxt.start() if nxt else len(text)
+        if i < 0 or i > limit:
+            continue
+        j = text.find('_MySubtask { _unused: core::marker::PhantomData }.call(', i)
+        if j < 0 or j > limit:
+            continue
+        block = text[i:j]
+        if 'unsafe impl<\'a> _Subtask for _MySubtask<\'a>' not in block:
+            continue
+        # end of the enclosing function: brace matching from the function's opening brace
+        k = text.index('{', m.end())
+        depth, e = 0, k
+        while True:
+            depth += {'{': 1, '}': -1}.get(text[e], 0)
+            e += 1
+            if depth == 0:
+                break
+        pubbed = re.sub(r'struct ParamsLower\(([^)]*)\);', lambda mm: 'pub struct ParamsLower(' + ''.join(
+            'pub ' + f.strip() + ', ' for f in mm.group(1).split(',') if f.strip()) + ');', block, count=1)
+        pubbed = pubbed.replace("struct _MySubtask<'a> { _unused:", "pub struct _MySubtask<'a> { pub _unused:", 1)
+        out.append(text[pos:e])
+        out.append('\n#[allow(unused, non_snake_case, clippy::all)]\npub mod verif_subtask_%s {\n use super::*;\n%s\n}\n' % (name, pubbed))
+        pos = e
+        names.append(name)
+    out.append(text[pos:])
+    rep.rewrites.append({'rule': 'R2: the function-local Subtask implementation of each async import is copied verbatim into a sibling module '
+                                 'verif_subtask_<fn> (struct declarations and fields made pub); the import function itself is left as generated',
+                         'count': len(names), 'functions': names})
+    if not names:
+        raise Undecided('rule R2 found no function-local Subtask implementation in the generated file (the generator changed the shape of its async import glue)')
+    return ''.join(out)
+
+
+def generate(rep, name, extra_args=(), mock=False, mock_prefix='crate::mockhost', hoist=False):
     """kani/<name>/{probe.wit, lib.rs, Cargo.toml.in} -> .build/<name>/ with src/probe.rs generated; returns the crate dir"""
     cli = build_cli(rep)
     src = os.path.join(VERIF, 'kani', name)
@@ -76,8 +124,13 @@ def generate(rep, name, extra_args=(), mock=False, mock_prefix='crate::mockhost'
     shutil.copy(os.path.join(REPO, 'Cargo.lock'), os.path.join(d, 'Cargo.lock'))
     import hashlib
     gen = open(os.path.join(d, 'src/probe.rs')).read()
+    text = gen
     if mock:
-        open(os.path.join(d, 'src/probe.rs'), 'w').write(mock_imports(rep, gen, mock_prefix))
+        text = mock_imports(rep, text, mock_prefix)
+    if hoist:
+        text = hoist_subtasks(rep, text)
+    if text is not gen:
+        open(os.path.join(d, 'src/probe.rs'), 'w').write(text)
     rep.functions.append('generated bindings %s/src/probe.rs (%d lines, sha256/16=%s): output of `%s`, the real Rust generator built from %s; '
                          'verified as generated, nothing hand-edited' % (d, gen.count('\n'), hashlib.sha256(gen.encode()).hexdigest()[:16],
                                                                          'wit-bindgen rust kani/%s/probe.wit %s' % (name, ' '.join(extra_args)), REPO))
